@@ -86,7 +86,19 @@ class Target(object):
                 return r
             return {0: None, 1: 0, 2: '', 3: False}.get(h, r)
         self.ns = {'__name__': '__kvprobe__', '_LOG': [], '_SEEN': [], '_D': D, '_FALSY': _falsy}
-        if kind == 'method':
+        if kind == 'sibling':
+            # two functions made by one factory: the same code object, different default values. The elder one
+            # is used through klepto first (see use_elder); the function under test is the younger one.
+            src = ('def MAKE(_D):\n'
+                   '    def P(%s):\n'
+                   '        _LOG.append(1); _SEEN.append(%s)\n'
+                   '        return %s\n'
+                   '    return P\n' % (spec_src(spec), seen, ret))
+            exec(src, self.ns)
+            self.plain = self.ns['MAKE'](D)
+            self.elder = self.ns['MAKE'](dict((n, 'elder-default-%s' % n) for n in D))
+            self.inst = None
+        elif kind == 'method':
             src = ('class C(object):\n'
                    '    def m(%s):\n'
                    '        _LOG.append(1); _SEEN.append(%s)\n'
@@ -130,6 +142,25 @@ class Target(object):
         ba = inspect.signature(fn).bind(*a, **k)
         ba.apply_defaults()
         return dict(ba.arguments)
+
+    def use_elder(self, deco, keygen_deco=None):
+        """let klepto see the elder sibling first (decorate it, key and call it once)"""
+        if self.kind != 'sibling':
+            return
+        args = [0 for _ in self.spec['req']]
+        kwds = dict((n, 0) for n, has, _ in self.spec['kwonly'] if not has)
+        n0 = len(self.log)
+        for fn in (deco(self.elder), keygen_deco(self.elder) if keygen_deco is not None else None):
+            if fn is None:
+                continue
+            try:
+                fn(*args, **kwds)
+                if hasattr(fn, 'key'):
+                    fn.key(*args, **kwds)
+            except Exception:
+                pass
+        del self.log[n0:]
+        del self.seen[:]
 
     def decorate(self, deco):
         if self.kind == 'method':
@@ -442,7 +473,7 @@ def gen_partial(rng, spec, pool):
 # one case = one (callable, keymap, options) cell with a batch of related call pairs
 
 def gen_case(rng, prop):
-    kind = rng.choice(['func', 'func', 'func', 'method', 'partial'])
+    kind = rng.choice(['func', 'func', 'func', 'method', 'partial', 'sibling'])
     if prop == 'C12':
         kind = rng.choice(['func', 'func', 'method'])
     spec = gen_spec(rng)
@@ -540,6 +571,7 @@ def run_case(case, prop):
     if prop == 'C09' and case.get('tol') is not None:
         pool += [2.04, 1.52, 0.12345, 1.005, 2.675]
     try:
+        tgt.use_elder(make_deco(case), make_keygen(case))
         f = tgt.decorate(make_deco(case))
         kg = make_keygen(case)(tgt.plain)
     except Exception as e:
